@@ -1,3 +1,4 @@
+import Heathcliff.Proofs.C01P
 import Heathcliff.Proofs.C01O
 import Heathcliff.Proofs.C01J
 
@@ -95,5 +96,53 @@ theorem dotProduct_size2_coeff {l : Level} (hl : l.WF) {sk : Array Int} (hsk : s
         (ph.getD i #[]).getD j 0 =
           ((c0.getD i #[]).getD j 0 + negMulNat l.n (l.q i).value (c1.getD i #[]) (skRes l sk i) j) % (l.q i).value :=
   HC.dotProduct_size2_coeff hl hsk h0 h1
+
+
+/-! ### decryption of the model = exact-integer spec (BFV and BGV), refusals
+    (statements, hypothesis bundles and non-vacuity instances: Heathcliff/Proofs/C01P.lean, section "Property theorems") -/
+
+/-- MAIN (BFV, size 2, coefficient form): the model's `bfvDecrypt` equals the exact-integer specification
+    `trim (bfvDecode t Q (phase …))`, under the BEHZ γ-condition on the exact phase -/
+theorem bfvDecrypt_size2_eq_spec : type_of% @HC.bfvDecrypt_size2_eq_spec := @HC.bfvDecrypt_size2_eq_spec
+
+/-- MAIN (BGV, size 2, NTT form, any correction factor cf < 2^63 coprime to t): the model's `bgvDecrypt` equals the
+    exact-integer specification on the coefficient forms of the input polynomials; ties x̃ = Q/2 excluded -/
+theorem bgvDecrypt_size2_eq_spec : type_of% @HC.bgvDecrypt_size2_eq_spec := @HC.bgvDecrypt_size2_eq_spec
+
+/-- BFV decryption refuses NTT-form ciphertexts -/
+theorem bfvDecrypt_refuses_ntt : type_of% @HC.bfvDecrypt_refuses_ntt := @HC.bfvDecrypt_refuses_ntt
+
+/-- BGV decryption refuses coefficient-form ciphertexts -/
+theorem bgvDecrypt_refuses_coeff : type_of% @HC.bgvDecrypt_refuses_coeff := @HC.bgvDecrypt_refuses_coeff
+
+/-- both refuse ciphertexts with fewer than two polynomials -/
+theorem bfvDecrypt_refuses_small : type_of% @HC.bfvDecrypt_refuses_small := @HC.bfvDecrypt_refuses_small
+
+theorem bgvDecrypt_refuses_small : type_of% @HC.bgvDecrypt_refuses_small := @HC.bgvDecrypt_refuses_small
+
+/-- BFV decryption refuses when the tool has no plain-modulus constants (built with t = 0, the CKKS case) -/
+theorem bfvDecrypt_refuses_noT : type_of% @HC.bfvDecrypt_refuses_noT := @HC.bfvDecrypt_refuses_noT
+
+/-- BGV decryption (size 2, NTT form) refuses a correction factor that is not invertible modulo t -/
+theorem bgvDecrypt_size2_refuses_cf : type_of% @HC.bgvDecrypt_size2_refuses_cf := @HC.bgvDecrypt_size2_refuses_cf
+
+theorem bfvDecrypt_eq_spec_of_phase : type_of% @HC.bfvDecrypt_eq_spec_of_phase := @HC.bfvDecrypt_eq_spec_of_phase
+
+theorem bgvDecrypt_eq_spec_of_phase : type_of% @HC.bgvDecrypt_eq_spec_of_phase := @HC.bgvDecrypt_eq_spec_of_phase
+
+/-- the hypothesis `hres` of `bfvDecrypt_eq_spec_of_phase` is what C01O proves for size 2 (so the general theorem
+    specialises to `bfvDecrypt_size2_eq_spec`; non-vacuity of `hres`) -/
+theorem c01p_hres_size2 : type_of% @HC.c01p_hres_size2 := @HC.c01p_hres_size2
+
+/-- NON-VACUITY of `DecOK`: a level whose tool was built by the model's constructors (`RNSBase.new` on the level's moduli,
+    then `RNSTool.new` with the level's degree and plain modulus) satisfies `DecOK` -/
+theorem c01p_decOK_of_new : type_of% @HC.c01p_decOK_of_new := @HC.c01p_decOK_of_new
+
+/-- NON-VACUITY of `Level.WF` (C01O): tables built by `NTTTables.new` for the level's moduli -/
+theorem c01p_levelWF_of_new : type_of% @HC.c01p_levelWF_of_new := @HC.c01p_levelWF_of_new
+
+/-- all hypotheses of `bfvDecrypt_size2_eq_spec` hold simultaneously for a concrete level built by the model's
+    constructors (N = 2, q = 17, t = 5, γ = 11) and a concrete ciphertext with non-zero noise -/
+theorem c01p_hypotheses_satisfiable : type_of% @HC.c01p_hypotheses_satisfiable := @HC.c01p_hypotheses_satisfiable
 
 end HC.C01
